@@ -44,7 +44,8 @@ CLAIMS = {
         "state and for every scheduler choice, lifted to every schedule (read_wait_free: at most K_load=28 / K_load_full=31 own steps); "
         "steps of other threads provably do not touch the reader. " + TIE + " Freeze sweeps (all other threads suspended at every point) "
         "search for a reader that cannot finish alone.",
-   note=NOTE + "First use of a thread (Node::get) is outside the bound; the generation-wrap cooldown is inside it.",
+   note=NOTE + "First use of a thread (Node::get) is outside the bound; the generation-wrap cooldown is inside it. The bound is also proved when the reader's non-SeqCst loads "
+        "(first read, slot scan) return stale values (C08_wait_free_bound_stale2 over Stale2.step_stale2; harness policy 'stale2').",
    technique="Rocq/Coq proof (measure, induction over schedules) + trace correspondence"),
 }
 
@@ -98,7 +99,8 @@ CLAIMS.update({
         "the drop of the guard rcu holds, no step of it writes any container, the call reports the panic; a computed run shows container and "
         "counts exact afterwards. " + TIE + " The harness closure really panics (catch_unwind), with guards held and concurrent writers. "
         "Pointee destructors that panic inside an operation are exercised on the real crate under the scheduler (arena objects flagged panic-on-destroy, grids g04/g05: the "
-        "destructor panics inside a writer's slot walk while a guard on the removed value sits in a node not yet visited); the oracles judge those traces (not modelled).",
+        "destructor panics inside a writer's slot walk while a guard on the removed value sits in a node not yet visited; grid g07: the destructor panics inside a READER, whose "
+        "helped fallback releases the last reference of its candidate - defect D9, a leaked replacement, found in wave 4 and repaired in 4a1a8a8); the oracles judge those traces (not modelled).",
    note=NOTE + "Known finding D6 (a destructor panicking inside the slot walk leaks the removed value's reference; memory-safe) is listed in known_findings.txt and printed as "
         "KNOWN-FINDING. Panicking Clone and panicking projections are not exercised.",
    technique="Rocq/Coq proof (unwind lemmas) + trace correspondence with real panics"),
@@ -232,7 +234,7 @@ CLAIMS["C01"].update(
         "and containers, any programs and ANY schedule, no thread ever faults and no step touches the count of a destroyed value (C01_no_fault_events: no fault event at all); "
         "at every count access the value's count is >= 1 (no_dead_access), on the fast path, the fallback and the helped path, for any number of guards, with freed addresses "
         "reused at the scheduler's choice. " + MASTER + TIE + " Any FAULT of the harness arena or the model is a finding; the executable protection invariants run on every state.",
-   note=NOTE + "Objects are untyped: the type confusion of known finding D3 (listed under C12, reproduced by harness/typed) is outside this theorem. Sequentially consistent interleavings except: The Relaxed first read of the fast path may be stale: Stale.step_stale answers it with ANY non-null value the schedule chooses and the theorems are re-proved for such runs (StaleInv*.v, scope RunOKS, pinned as *_stale; the correspondence runs the real crate with the hook shim answering that read with an older value of the location: policy 'stale'). Other weak-memory behaviour: C07. The generation wrap is outside RunOK (C13 proves no panic there; correspondence with preset counters). "
+   note=NOTE + "Objects are untyped: the type confusion of known finding D3 (listed under C12, reproduced by harness/typed) is outside this theorem. Sequentially consistent interleavings except: The loads of the read side that are not SeqCst may be stale: Stale2.step_stale2 answers the Relaxed first read of the fast path (ANY non-null value), the Relaxed slot scan, the Acquire look at in_use in check_cooldown and the Relaxed head read before the push loop with values the schedule chooses, and the theorems are re-proved for such runs (StaleInv*.v / Stale2Inv*.v, scopes RunOKS / RunOKS2, pinned as *_stale / *_stale2; the correspondence runs the real crate with the hook shim answering those loads with older values of the location that coherence and happens-before still permit: policies 'stale', 'stale2'). Other weak-memory behaviour: C07. The generation wrap is outside RunOK (C13 proves no panic there; correspondence with preset counters). "
         "Cache commands are outside RunOK (C16).",
    technique="Rocq/Coq proof (inductive invariant over all schedules: accounting + protection + exchange of finite sums) + trace correspondence")
 CLAIMS["C02"].update(
@@ -241,7 +243,7 @@ CLAIMS["C02"].update(
         "positive; C02_quiescent_counts - when no operation is in progress the count equals containers + handles minus the debts still in slots; C02_no_owner_destroyed - a "
         "value nobody owns has count 0, is destroyed, and no slot holds it; the destructor runs in the very step whose decrement finds the count at 1 (tight). " + MASTER + TIE +
         " The same equation is evaluated by the model driver on every state of every run, the final-state dump (all strong counts, slots, containers, live objects) must equal the model's.",
-   note=NOTE + "Cache commands and the generation wrap are outside RunOK (accounting with them: CchAcc, C02_accounting_wrap). Also proved with stale first reads of the fast path (C02_accounting_stale, RunOKS).",
+   note=NOTE + "Cache commands and the generation wrap are outside RunOK (accounting with them: CchAcc, C02_accounting_wrap). Also proved with stale non-SeqCst loads of the read side (C02_accounting_stale2, RunOKS2).",
    technique="Rocq/Coq proof (inductive counting invariant over all schedules, finitely supported sums) + trace correspondence + executable invariant on every state")
 CLAIMS["C03"].update(
    text="Coq theorem C03_load_linearizable over ASModel (runs instrumented with a clock and the latest time each container held each value), " + RUNOK + ", any schedule: a completed "
@@ -250,7 +252,7 @@ CLAIMS["C03"].update(
         "GenInv; the envelope is not overwritten before the reader takes it: EnvInv); with the write chain (all writes of a container form ONE chain, all schedules) this gives the "
         "real-time and per-thread monotonicity clauses. Defect D8 (a load returning another container's value) was found by planning this proof and repaired (83d9f2e). " + TIE +
         " History oracle on every trace; grids of the D8 and stale-replacement schedule shapes.",
-   note=NOTE + "The Relaxed first read of the fast path may be stale: Stale.step_stale answers it with ANY non-null value the schedule chooses and the theorems are re-proved for such runs (StaleInv*.v, scope RunOKS, pinned as *_stale; the correspondence runs the real crate with the hook shim answering that read with an older value of the location: policy 'stale'). Other weak-memory behaviour: C07. Loads inside compare_and_swap/rcu/cache are not claimed here (C05/C06/C16).",
+   note=NOTE + "The loads of the read side that are not SeqCst may be stale: Stale2.step_stale2 answers the Relaxed first read of the fast path (ANY non-null value), the Relaxed slot scan, the Acquire look at in_use in check_cooldown and the Relaxed head read before the push loop with values the schedule chooses, and the theorems are re-proved for such runs (StaleInv*.v / Stale2Inv*.v, scopes RunOKS / RunOKS2, pinned as *_stale / *_stale2; the correspondence runs the real crate with the hook shim answering those loads with older values of the location that coherence and happens-before still permit: policies 'stale', 'stale2'). Other weak-memory behaviour: C07. Loads inside compare_and_swap/rcu/cache are not claimed here (C05/C06/C16).",
    technique="Rocq/Coq proof (instrumented runs, inductive invariant over all schedules) + trace correspondence with a history oracle")
 CLAIMS["C09"].update(
    text="Coq theorems over ASModel: (ProgressW) from every state satisfying the inductive invariant WF2 - hence every reachable state - a thread running alone while all others are "
